@@ -2,6 +2,7 @@
 import json
 
 from .. import gen
+from ..hostile import scribble
 from ..ref import bip32 as rb32, bip39 as rb39, paper as rpaper, base58 as rb58, addr as raddr, secp, path as rpath
 
 PROP = "C06"
@@ -179,6 +180,7 @@ def judge_sequence(ctx, case):
         w, m, mn, pw, tn = build_wallet(case)
     except Exception as ex:  # noqa
         return ctx.judge("sequence", False, case, "wallet", ex, cls="seq|raised", mech="C06.sequence.raised")
+    held = []        # (step, live result object, expectation): results the caller KEEPS must not change under later requests
     for step, (acct, s, e, via) in enumerate(case["steps"]):
         try:
             if via == "json":
@@ -199,6 +201,31 @@ def judge_sequence(ctx, case):
         ctx.judge("sequence", not d, dict(case, step=step), None, d[:3], cls="seq|step%d|%s" % (min(step, 3), via),
                   mech="C06.sequence." + (d[0][0].strip("/").split("/")[-1] if d else ""))
         ctx.extra["rows_checked"] = ctx.extra.get("rows_checked", 0) + 3 * max(0, e - s)
+        if via != "json":
+            held.append((step, data, json.loads(json.dumps(exp)), via))
+    # 1. every result still held is re-read after all later requests were served
+    for step, data, exp, via in held:
+        got = {k: v for k, v in json.loads(json.dumps(data)).items() if k != "BIP85"}
+        d = rpaper.diff(exp, got)
+        ctx.judge("sequence", not d, dict(case, step=step, reread="after later requests"), None, d[:3], cls="seq|reread|%s" % via,
+                  mech="C06.sequence.earlier_result_changed")
+    # 2. the caller edits a result it was handed (redacts / clears / re-orders it in place), then asks again
+    if held and case.get("scribble"):
+        import random as _random
+        hr = _random.Random(case["scribble"])
+        for step, data, exp, via in held:
+            scribble(data, hr)
+        acct, s, e, via = case["steps"][0]
+        try:
+            data = w.generate(account=acct, interval=(s, e))
+            exp = json.loads(json.dumps(rpaper.generate(m, tn, acct, s, e, mn, pw, with_bip85=False)))
+            got = {k: v for k, v in json.loads(json.dumps(data)).items() if k != "BIP85"}
+            d = rpaper.diff(exp, got)
+            ctx.judge("sequence", not d, dict(case, step=0, reread="after the caller edited earlier results"), None, d[:3],
+                      cls="seq|after-scribble", mech="C06.sequence.result_depends_on_caller_edits")
+        except Exception as ex:  # noqa
+            ctx.judge("sequence", False, dict(case, step=0, reread="after the caller edited earlier results"), "dict", ex,
+                      cls="seq|after-scribble|raised", mech="C06.sequence.raised")
 
 
 LONG_SIZES = (255, 256, 257, 300, 500, 501, 512, 513, 640, 1000, 1001, 1024, 1025, 2048, 2049, 4097)
@@ -281,6 +308,7 @@ def gen_sequence(rnd, j):
         a = acct if rnd.random() < 0.8 else (acct + 1) % H
         steps.append((a, s, min(e, H), rnd.choice(["generate", "generate", "json", "bip44", "bip49", "bip84"])))
     case["steps"] = steps
+    case["scribble"] = rnd.randrange(1, 1 << 30) if rnd.random() < 0.5 else 0
     return case
 
 
@@ -345,6 +373,7 @@ def replay(ctx, monitor, case):
         return judge_long_listing(ctx, case)
     if monitor == "sequence":
         case.pop("step", None)
+        case.pop("reread", None)
         case["steps"] = [tuple(x) for x in case["steps"]]
         judge_sequence(ctx, case)
     else:
